@@ -397,7 +397,7 @@ def _r2_r3(ctx, rm, pkg, allv):
                 for c, val in v.assume.items():
                     if c in COEFF:
                         zero[COEFF[c]] = not val
-                unknown = []
+                unknown, unknown_c = [], []
                 pos, neg, views = [], set(), []
                 # (tests decided while the optional parts of the text were enumerated are conditions of the variant like those of its path)
                 for cond, pol in list(extra) + [(c, val) for c, val in v.assume.items() if c not in COEFF]:
@@ -417,6 +417,7 @@ def _r2_r3(ctx, rm, pkg, allv):
                             neg |= set(lit)
                     else:
                         unknown.append(show(cond)[:80])
+                        unknown_c.append((cond, pol))
                 branch = "shielded" if pos else "plain"
                 chosen = (set.intersection(*pos) - neg) if pos else None
                 if chosen is not None and not chosen and not sel_open:
@@ -425,6 +426,11 @@ def _r2_r3(ctx, rm, pkg, allv):
                     selections.append((branch == "shielded", chosen, neg, views, v))
                 vkey = f"{key}:{'/'.join(k + ('=0' if z else '!=0') for k, z in sorted(zero.items())) or 'all'}:{branch}" + \
                     (f":{'+'.join(sorted(chosen))}" if chosen is not None and len(selections) > 1 and sum(1 for s_ in selections if s_[0]) > 1 else "")
+                if unknown_c and all(_value_cond(c) for c, _p in unknown_c) and v.raw is not None:
+                    # the FORM of the law depends on the value of a coefficient (a special case for beta = 0.5, for integer beta ..): decided by
+                    # writing the expression out for probe values of that coefficient, each compared with the reference at that value
+                    _probe_values(ctx, vkey, v, unknown_c, zero, ref[branch] if isinstance(ref, dict) else ref)
+                    continue
                 if unknown or any(n is None for n in names.values()) or v.seqs:
                     ctx.unrec("R3", vkey, (v.file, v.line), f"variant has unrecognised conditions/holes: {unknown} {[h for h, n in names.items() if n is None]}"
                               + (f" / joined sequence(s) {sorted(v.seqs)}" if v.seqs else ""))
@@ -494,6 +500,207 @@ def _r2_r3(ctx, rm, pkg, allv):
         ctx.check(gtypes == rtypes, "R2", "Reaction.rateexpr grain list == Grain.rateexpr chain", ("naunet/grains/grain.py", 0),
                   "the types the native class hands to the grain are exactly the types the grain dispatches on",
                   expected=str(sorted(gtypes)), found=str(sorted(rtypes)))
+
+
+# ------------------------------------------------------------------ R3: laws whose form depends on a coefficient's value
+
+class _Unsupported(Exception):
+    pass
+
+
+class _Sym(str):
+    """a coefficient kept symbolic: prints as its name, is truthy, takes part in no arithmetic"""
+
+
+_CMP = {"Eq": lambda a, b: a == b, "NotEq": lambda a, b: a != b, "Lt": lambda a, b: a < b, "LtE": lambda a, b: a <= b, "Gt": lambda a, b: a > b,
+        "GtE": lambda a, b: a >= b, "Is": lambda a, b: a is b, "IsNot": lambda a, b: a is not b, "In": lambda a, b: a in b, "NotIn": lambda a, b: a not in b}
+_BIN = {"Add": lambda a, b: a + b, "Sub": lambda a, b: a - b, "Mult": lambda a, b: a * b, "Div": lambda a, b: a / b, "FloorDiv": lambda a, b: a // b,
+        "Mod": lambda a, b: a % b, "Pow": lambda a, b: a ** b}
+_PURE = {"abs": abs, "float": float, "int": int, "str": str, "len": len, "round": round, "min": min, "max": max, "bool": bool, "list": list, "tuple": tuple}
+_COEFF_ATOMS = set(COEFF)
+
+
+def _value_cond(cond) -> bool:
+    """a condition that only reads coefficients (alpha / beta / gamma) and literals through arithmetic, comparisons and number builtins"""
+    seen = False
+    for x in walk(cond):
+        if not isinstance(x, tuple) or not x or not isinstance(x[0], str):
+            continue
+        if x in _COEFF_ATOMS:
+            seen = True
+        elif x == SELF or x[0] in ("const", "cmp", "bool", "unop", "binop") or x[0] in _CMP:
+            continue
+        elif x[0] == "global" and x[1] in _PURE:
+            continue
+        elif x[0] == "call" and x[1][0] == "global" and x[1][1] in _PURE and not x[3]:
+            continue
+        elif x[0] == "meth" and x[2] == "is_integer" and not x[3] and not x[4]:
+            continue
+        else:
+            return False
+    return seen
+
+
+def _pyeval(ir, env):
+    """Value of a literal-like IR under `env` ({IR node: Python value}) -- a small evaluator over the IR itself (numbers, text, displays,
+    comprehensions over them, f-strings, join, number builtins); nothing of naunet is run.  Raises _Unsupported for anything else."""
+    if ir in env:
+        return env[ir]
+    k = ir[0]
+    try:
+        if k == "const":
+            return ir[1]
+        if k == "fstr":
+            out = []
+            for p_ in ir[1]:
+                if p_[0] == "const":
+                    out.append(p_[1])
+                    continue
+                val = _pyeval(p_[1], env)
+                spec = p_[2]
+                if isinstance(spec, tuple):
+                    spec = _pyeval(spec, env)
+                if p_[3] not in (-1, None):
+                    val = {115: str, 114: repr, 97: ascii}[p_[3]](val)
+                if isinstance(val, _Sym) and spec:
+                    raise _Unsupported("format spec on a symbolic coefficient")
+                out.append(format(val, spec or ""))
+            return "".join(out)
+        if k == "join":
+            return _pyeval(ir[1], env).join(list(_pyeval(ir[2], env)))
+        if k in ("list", "tuple"):
+            out = []
+            for e in ir[1]:
+                if e[0] == "star":
+                    out.extend(_pyeval(e[1], env))
+                else:
+                    out.append(_pyeval(e, env))
+            return out if k == "list" else tuple(out)
+        if k == "dict":
+            return {_pyeval(a, env): _pyeval(b, env) for a, b in ir[1]}
+        if k == "binop" and ir[1] in _BIN:
+            a, b = _pyeval(ir[2], env), _pyeval(ir[3], env)
+            if isinstance(a, _Sym) or isinstance(b, _Sym):
+                raise _Unsupported("arithmetic on a symbolic coefficient")
+            return _BIN[ir[1]](a, b)
+        if k == "unop":
+            a = _pyeval(ir[2], env)
+            if ir[1] == "Not":
+                return not a
+            if isinstance(a, _Sym):
+                raise _Unsupported("arithmetic on a symbolic coefficient")
+            return -a if ir[1] == "USub" else +a
+        if k == "cmp":
+            vals = [_pyeval(x, env) for x in ir[2]]
+            if any(isinstance(x, _Sym) for x in vals):
+                raise _Unsupported("comparison of a symbolic coefficient")
+            return all(_CMP[o](a, b) for o, a, b in zip(ir[1], vals, vals[1:]))
+        if k == "bool":
+            val = None
+            for x in ir[2]:
+                val = _pyeval(x, env)
+                if bool(val) != (ir[1] == "And"):
+                    return val
+            return val
+        if k in ("ifexp", "phi") and len(ir) == 4:
+            return _pyeval(ir[2] if _pyeval(ir[1], env) else ir[3], env)
+        if k == "call" and ir[1][0] == "global" and ir[1][1] in _PURE and not ir[3]:
+            args = [_pyeval(a, env) for a in ir[2]]
+            if any(isinstance(a, _Sym) for a in args) and ir[1][1] != "str":
+                raise _Unsupported("number builtin on a symbolic coefficient")
+            return _PURE[ir[1][1]](*args)
+        if k == "call" and ir[1] == ("global", "filter") and len(ir[2]) == 2 and ir[2][0] == ("const", None) and not ir[3]:
+            return [x for x in _pyeval(ir[2][1], env) if x]
+        if k == "meth" and ir[2] == "is_integer" and not ir[3]:
+            return float(_pyeval(ir[1], env)).is_integer()
+        if k == "meth" and ir[2] == "get" and len(ir[3]) in (1, 2) and not ir[4]:
+            d = _pyeval(ir[1], env)
+            if isinstance(d, dict):
+                return d.get(_pyeval(ir[3][0], env), _pyeval(ir[3][1], env) if len(ir[3]) == 2 else None)
+        if k == "sub":
+            base = _pyeval(ir[1], env)
+            if ir[2][0] == "slice":
+                lo, hi, st = (_pyeval(x, env) for x in ir[2][1:4])
+                return base[lo:hi:st]
+            return base[_pyeval(ir[2], env)]
+        if k == "comp" and ir[1] in ("list", "gen") and len(ir[3]) == 1 and ir[3][0][0] is not None:
+            tg, it, ifs = ir[3][0]
+            out = []
+            for item in _pyeval(it, env):
+                e2 = dict(env)
+                if tg[0] == "bv":
+                    e2[tg] = item
+                elif tg[0] == "tuple" and all(t is not None and t[0] == "bv" for t in tg[1]) and len(tg[1]) == len(item):
+                    e2.update(zip(tg[1], item))
+                else:
+                    raise _Unsupported("comprehension target")
+                if all(_pyeval(c, e2) for c in ifs):
+                    out.append(_pyeval(ir[2], e2))
+            return out
+    except _Unsupported:
+        raise
+    except Exception as ex:         # (a TypeError / KeyError / ZeroDivisionError of the little evaluation is "cannot evaluate", never a verdict)
+        raise _Unsupported(f"{type(ex).__name__}: {ex}")
+    raise _Unsupported(show(ir)[:60])
+
+
+_PROBES = (-3.0, -2.0, -1.5, -1.0, -0.5, 0.5, 1.0, 1.5, 2.0, 3.0, 4.0, 0.37, -2.7)
+
+
+def _probe_values(ctx, vkey, v, vconds, zero, reftxt):
+    """R3 for a variant whose conditions compare a coefficient with numbers (`abs(b) == 0.5`, `b > 0`, `float(b).is_integer() and b <= 3`): for
+    every probe value of that coefficient that satisfies the variant's conditions, the expression the code writes (evaluated from the
+    variant's IR with that number in place, the other coefficients kept symbolic) must be the reference law at that value.  A mismatch is a
+    concrete counterexample; no probe satisfying the conditions, or an expression that cannot be written out, is UNRECOGNISED."""
+    where = (v.file, v.line)
+    names = sorted({COEFF[x] for c, _p in vconds for x in walk(c) if isinstance(x, tuple) and x in _COEFF_ATOMS})
+    if len(names) != 1:
+        ctx.unrec("R3", vkey, where, f"the form of the law depends on the values of several coefficients at once ({names}): not enumerated")
+        return
+    name = names[0]
+    atom = next(k_ for k_, n_ in COEFF.items() if n_ == name)
+    # the literals the conditions mention, their neighbours and negatives join the probes
+    lits = {float(x[1]) for c, _p in vconds for x in walk(c) if isinstance(x, tuple) and len(x) == 2 and x[0] == "const" and type(x[1]) in (int, float) and abs(x[1]) < 1e6}
+    probes = sorted(set(_PROBES) | {s_ * (l_ + d_) for l_ in lits for d_ in (0.0, 1.0, -1.0, 0.5) for s_ in (1.0, -1.0)} - {0.0})
+    if zero.get(name) is True:
+        probes = [0.0]
+    elif name not in zero:
+        probes = [0.0] + probes
+    tried, bad_eval = [], None
+    for p_ in probes:
+        env = {atom: p_}
+        for k_, n_ in COEFF.items():
+            if n_ != name:
+                env[k_] = 0.0 if zero.get(n_) else _Sym(n_)
+        try:
+            if not all(bool(_pyeval(c, env)) == pol for c, pol in vconds):
+                continue
+            text = _pyeval(v.raw, env)
+        except _Unsupported as ex:
+            bad_eval = str(ex)
+            break
+        if not isinstance(text, str):
+            bad_eval = f"the value is not text: {text!r}"[:80]
+            break
+        tried.append(p_)
+        envn = {name: p_, **{k_: 0.0 for k_, z in zero.items() if z and k_ != name}}
+        try:
+            a = calg.canon_str(text, envn)
+            b = calg.canon_str(reftxt, envn)
+        except calg.CParseError as ex:
+            ctx.bad("R3", vkey, where, f"for {name} = {p_} the generated rate `{text}` is not a C expression: {ex}", found=text)
+            return
+        if not a.equiv(b):
+            ctx.bad("R3", vkey, where, f"for {name} = {p_} the generated rate differs from the reference law of this database code (the form of the expression depends on the "
+                    f"value of {name}: {'; '.join(('' if pol else 'not ') + show(c)[:50] for c, pol in vconds)[:160]})",
+                    expected=f"{reftxt} at {name} = {p_}  [{b.show()[:120]}]", found=f"{text}  [{a.show()[:120]}]")
+            return
+    if bad_eval is not None:
+        ctx.unrec("R3", vkey, where, f"the form of the law depends on the value of {name} and the expression cannot be written out for a probe value: {bad_eval}")
+    elif not tried:
+        ctx.unrec("R3", vkey, where, f"the form of the law depends on the value of {name}; no probe value satisfies {[show(c)[:50] for c, _p in vconds]}")
+    else:
+        ctx.ok("R3", vkey, where, f"value-dependent form: equals the reference law for {name} in {tried[:8]}{' ..' if len(tried) > 8 else ''}")
 
 
 # ------------------------------------------------------------------ R8  (positional statement lists)
@@ -850,3 +1057,9 @@ MUTANTS += [
      "new": "        rateeqns = [eq for eq in self._assign_rates(rate_sym, reactions, grains) if not eq.endswith(\"= 0.0;\")]\n", "rules": ["R8"]},
 ]
 BENIGN.append({"name": "assign-rates-returns-list-of-generator", "file": TLF, "old": "        return rateassign\n\n    def _prepare_ode_content(", "new": "        return list(iter(rateassign))\n\n    def _prepare_ode_content("})
+
+# the form of the law may depend on a coefficient's VALUE only where every case is still the law (decided on probe values)
+_K_POW = 'f"pow(Tgas/300.0, {b})" if b else "",'
+BENIGN.append({"name": "kida-unit-exponent-written-without-pow", "file": K, "old": _K_POW, "new": '("(Tgas/300.0)" if b == 1 else f"pow(Tgas/300.0, {b})") if b else "",'})
+MUTANTS += [{"name": "kida-negative-exponent-dropped", "file": K, "old": _K_POW, "new": '("(Tgas/300.0)" if b == 1 else f"pow(Tgas/300.0, {b})") if b > 0 else "",', "rules": ["R3"]},
+            {"name": "kida-half-exponent-inverted", "file": K, "old": _K_POW, "new": '("1.0/sqrt(Tgas/300.0)" if abs(b) == 0.5 else f"pow(Tgas/300.0, {b})") if b else "",', "rules": ["R3"]}]
